@@ -2127,13 +2127,22 @@ insert_list:
         }
         return false;
     }
+    // The run-queue lock must be released before try_work_stealing() runs:
+    // a temporary AtomicRunQ inside the idler's loop condition would live to
+    // the end of the whole condition, i.e. this vCPU would keep its own
+    // run-queue lock while waiting for vcpu_list_lock, and another idler
+    // that holds vcpu_list_lock while scanning this vCPU's run queue waits
+    // for that very lock (deadlock of two work-stealing idlers).
+    static inline bool runq_is_single(const RunQ& rq) {
+        return AtomicRunQ(rq).single();
+    }
     static void* idler(void*) {
         RunQ rq;
         auto last_idle = now;
         auto vcpu = rq.current->get_vcpu();
         while (vcpu->state != states::DONE) {
             while (unlikely(resume_threads_inlined(vcpu, rq) > 0) ||
-                   likely(!AtomicRunQ(rq).single())   ||
+                   likely(!runq_is_single(rq))        ||
                    likely(try_work_stealing(vcpu))) {
                 thread_yield();
                 if (vcpu->state == states::DONE)
